@@ -90,10 +90,23 @@ class ObservedLogic(rl.ReconnectLogic):
         if self.acts is not None:
             self.acts.append("stop_ret")
 
+    async def _handle_connection_failure(self, err):
+        # on_connect_error is optional: without it the report is made visible here (same place in the order of events)
+        if self._on_connect_error_cb is None and self.acts is not None:
+            self.acts.append("on_connect_error:" + ("auth" if isinstance(err, rl.AUTH_EXCEPTIONS) else "other"))
+        await super()._handle_connection_failure(err)
+
+
+_nocb = [0]
+
 
 class Bench:
     def __init__(self, has_name=True, susp=(False, False, False)):
         self.susp = susp          # which user callbacks await something: (on_connect, on_connect_error, on_disconnect)
+        # on_connect_error is an optional argument of the manager: every third bench whose error callback would not suspend
+        # anyway is built without one
+        _nocb[0] += 1
+        self.no_error_cb = (not susp[1]) and _nocb[0] % 3 == 0
         self.cb_futs = []
         self.cb_all = []          # every future a callback ever awaited (to tell 'inside a callback' from 'inside a client call')
         self.net = simnet.Net(base=1000.0)
@@ -132,7 +145,7 @@ class Bench:
 
         self.errors = []
         self.mgr = ObservedLogic(client=self.client, on_connect=on_connect, on_disconnect=on_disconnect,
-                                 name=NAME if has_name else None, on_connect_error=on_connect_error)
+                                 name=NAME if has_name else None, on_connect_error=None if self.no_error_cb else on_connect_error)
         self.mgr.acts = self.acts
         orig_call_at = self.loop.call_at
 
